@@ -198,3 +198,22 @@ func init() {
 		}
 	}
 }
+
+// explore staleerr: `return nil, err` where err is known to be nil on that path (it lies on the nil edge of a dominating
+// test of the same value): the function returns neither a value nor an error.
+func init() {
+	exploreExtra["staleerr"] = func(p *Prog) {
+		var lines []string
+		for _, sf := range p.SSAFuncsOf(p.ModulePkgs()) {
+			for _, f := range allSSAFuncs(sf) {
+				for _, s := range staleErrReturns(f) {
+					lines = append(lines, fmt.Sprintf("%s\t%s", p.Pos(s.Pos()), ssaFuncName(f)))
+				}
+			}
+		}
+		sort.Strings(lines)
+		for _, l := range lines {
+			fmt.Println(l)
+		}
+	}
+}
